@@ -804,6 +804,18 @@ impl Xot {
                         content,
                         span: _,
                     } => {
+                        // the tokenizer lets a reserved target through
+                        // https://www.w3.org/TR/xml/#NT-PITarget
+                        if target.as_str().eq_ignore_ascii_case("xml") {
+                            let pos = tokenizer.stream().gen_text_pos_from(target.start());
+                            return Err(ParseError::XmlParser(
+                                xmlparser::Error::InvalidPI(
+                                    xmlparser::StreamError::InvalidName,
+                                    pos,
+                                ),
+                                position,
+                            ));
+                        }
                         let node_id = builder.processing_instruction(
                             target.as_str(),
                             content.map(|s| s.as_str()),
